@@ -56,6 +56,12 @@ CHECKS = {
         note="The translation table is the documented one (tests/data/exprs, stmts, subheader builders), computed recursively by the generator, never by the parser. Pairs where CPython rejects ctx[translation] or re-reads it as another node class are outside the domain and counted.",
         ref="DESIGN.md §4 C05",
     ),
+    "C06": dict(
+        technique="model-based property testing: command lines are generated from a word/piece model and the parsed call is compared with a reference splitter that works on the generated pieces (never on tokens); exhaustive short words in the thorough tier",
+        text="Exploration: argument count, order, verbatim constants, env lookups, @(..) / @$(..) / nested forms and the runtime function of the bracket form are checked against the model for every generated command line. Held on everything generated.",
+        note="The reference splitter and the reserved-word exclusion (conservative regex) are mine; the shape that glues the pieces of a mixed word is not checked because the property does not prescribe it.",
+        ref="DESIGN.md §4 C06",
+    ),
     "C08": dict(
         technique="property-based testing: generated and mutated texts (Hypothesis-driven grammar, corpus, mutation, soup) against a pure tiling oracle over (text, token list)",
         text="Exploration: every generated text the tokenizer finishes on is checked against an oracle that needs nothing but the text and the token list (slice equality, order, gap shape, NEWLINE/INDENT/DEDENT/ENDMARKER structure). Held on everything generated; no proof.",
